@@ -16,6 +16,7 @@ import (
 	"slices"
 	"strings"
 	"sync"
+	"unicode"
 )
 
 // Equal reports whether two Go values representing JSON values are equal according
@@ -475,7 +476,9 @@ func fieldJSONInfo(f reflect.StructField) jsonInfo {
 		if name == "-" && !found {
 			return jsonInfo{omit: true}
 		}
-		if name != "" {
+		// Like encoding/json, ignore a name containing characters that are not
+		// allowed in a tag name, and use the Go field name instead.
+		if name != "" && isValidTagName(name) {
 			info.name = name
 		}
 		if len(rest) > 0 {
@@ -486,6 +489,25 @@ func fieldJSONInfo(f reflect.StructField) jsonInfo {
 		}
 	}
 	return info
+}
+
+// isValidTagName reports whether s can be used as a field name in a json struct tag.
+// It is the same rule as encoding/json's (unexported) isValidTag.
+func isValidTagName(s string) bool {
+	if s == "" {
+		return false
+	}
+	for _, c := range s {
+		switch {
+		case strings.ContainsRune("!#$%&()*+-./:;<=>?@[]^_{|}~ ", c):
+			// Backslash and quote chars are reserved, but
+			// otherwise any punctuation chars are allowed
+			// in a tag name.
+		case !unicode.IsLetter(c) && !unicode.IsDigit(c):
+			return false
+		}
+	}
+	return true
 }
 
 // wrapf wraps *errp with the given formatted message if *errp is not nil.
